@@ -14,6 +14,10 @@ Theorem C11_decompose_exact : forall d sg D h mi s ms us ns, canon d ->
   Z.abs (val d) = (((((D * 24 + h) * 60 + mi) * 60 + s) * 1000 + ms) * 1000 + us) * 1000 + ns /\
   (sg < 0 <-> val d < 0) /\ D <= 32768 * 36525.
 Proof. exact decompose_spec. Qed.
+(* composing the decomposition returns the identical duration *)
+Theorem C11_compose_decompose : forall d, canon d ->
+  let '(sg, (D, h, mi, s, ms, us, ns)) := decompose d in compose sg D h mi s ms us ns = d.
+Proof. exact compose_decompose. Qed.
 Theorem C11_display_exact : forall d, canon d -> display_duration d = spec_display_duration (val d).
 Proof. exact display_duration_spec. Qed.
 Theorem C11_from_str_total : forall s, duration_from_str s <> PPanic.
